@@ -152,6 +152,21 @@ class CopyLis(StateMachine):
     g1 = _mk_sync("g1")
 
 
+def _same_named_decoys():
+    """Other live machine classes with the same module and class *name* (declared later, in a
+    function body - e.g. a class factory or a re-declaration in a notebook): copies of the
+    instances of the classes above must stay instances of the classes above."""
+    out = []
+    for nm in ("CopySync", "CopyAsync", "CopyPlain", "CopyLis"):
+        ns = {"s0": State(initial=True), "s1": State(value=0), "__module__": __name__}
+        ns["a"] = ns["s0"].to(ns["s1"]) | ns["s1"].to(ns["s0"])
+        out.append(type(StateMachine)(nm, (StateMachine,), ns))
+    return out
+
+
+DECOYS = _same_named_decoys()
+
+
 def spec(with_model=True, with_listener=True, lis_action=False):
     states = (S("s0", initial=True), S("s1", value=0), S("s2", value=""))
     la = ("lact",) if lis_action else ()
